@@ -113,6 +113,19 @@ def sweep_docs(fmt, quick):
                         if tail == "" and d % 2 == 0:
                             docs.append(list(b'{"n":' + t + b"}"))
                             docs.append(list(t + b" "))
+        # number literals longer than the parser's literal buffer (valid floats; the digits run across any cut)
+        for L in (30, 60, 62, 63, 64, 65, 66, 67, 70, 100, 129, 200):
+            for t in (b"0." + b"123456789" * 30, b"-1" + b"0" * 300, b"12345678901234567890" * 20, b"1e" + b"0" * 300 + b"1"):
+                t = t[:L] if not t.startswith(b"1e") else t[: L - 1] + b"1"
+                docs += [list(b"[" + t + b"]"), list(t + b" "), list(b'{"n":' + t + b',"m":' + t[: L // 2] + b"}")]
+    if fmt == "ubjson":
+        # runs of no-ops wherever a value or member may start (a no-op is not an element)
+        for k in (1, 2, 3):
+            N = b"N" * k
+            docs += [list(t) for t in (b"[#U\x02" + N + b"i\x01" + N + b"i\x02", b"[#U\x01" + N + b"[" + N + b"]", b"[" + N + b"i\x01" + N + b"]" , N + b"i\x05",
+                                       b"[#U\x02" + N + b"[#U\x01" + N + b"T" + N + b"F", b"{" + N + b"U\x01ai\x01" + N + b"}", b"[[#U\x01" + N + b"SU\x01x" + N + b"T]",
+                                       b"{U\x01a" + N + b"i\x01}", b"{#U\x01U\x01a" + N + b"i\x01", b"[#U\x02" + N + b"{#U\x01U\x01a" + N + b"Z" + N + b"Z",
+                                       b"[#U\x00" + N, b"[[#U\x00" + N + b"]", b"[#U\x01" + N)]
     for L in Ls:
         plain = bytes(97 + (j % 26) for j in range(L))
         if fmt == "json":
@@ -124,6 +137,8 @@ def sweep_docs(fmt, quick):
                     fl += [plain[:-1] + b"\xff"]
                 if L >= 6:
                     fl += [plain[:-6] + b"\\u00e9"]
+                if L >= 4 and (L % 2 == 0 or L > 56):      # the text ends in an escaped backslash / in backslash + quote
+                    fl += [plain[:-2] + b"\\\\", plain[:-4] + b'\\\\\\"']
                 return fl
             # the second text of a document differs from the first (a buffer shared by both would show)
             for t, t2 in zip(flavours(plain), flavours(bytes(65 + (j % 26) for j in range(L)))):
@@ -221,6 +236,14 @@ def token_pair_docs(fmt):
     return extra
 
 
+# inputs refused (or cut off) in the middle of an item
+PRELUDE_BAD = dict(
+    cborl=[list(t) for t in (b"\x3b\x80\x00\x00\x00\x00\x00\x00\x00", b"\x82\x01", b"\x19\x01", b"\x9f\x01", b"\xa1\x01", b"\x82\xc1", b"\x62\x61",
+                             b"\xbf\x61\x61", b"\x83\x01\xf9", b"\x9f\x9f\x5f")],
+    ubjson=[list(t) for t in (b"[i\x01", b"{U\x01a", b"[#U\x03i\x01", b"SU\x05ab", b"[$i#U\x03\x01", b"[?]", b"{#U\x02U\x01aT", b"[[[", b"{$S#U\x02U\x01aU\x01", b"HU\x03")],
+    json=[list(t) for t in (b"[1,", b'{"a":', b'"abc', b"[tru", b'{"a"x', b"[1 2]", b'["\\', b"[[[", b'{"k":{"l":[', b"-")])
+
+
 def conformance_cases(ctx, prop, fmt, rows):
     """Every document through the one-shot Parse and through one more entry point (rotating): the value a parser
     reports must be the reference value whichever way the bytes arrive."""
@@ -238,6 +261,19 @@ def conformance_cases(ctx, prop, fmt, rows):
             cases.append(case(prop, "parse", fmt, doc=r["doc"], entry=e, origin=org + " via " + e, **kw))
         if n % 9 == 0:
             cases.append(case(prop, "parse", fmt, doc=r["doc"], entry="parsestr", origin=org + " via ParseString"))
+    # the package-level one-shot functions after independent earlier calls that were refused in the middle of an item;
+    # and a consumer that implements structform.Visitor only (texts reach it through the library's adapter)
+    bad = [r["doc"] for r in rows if r["class"] != "complete"] + PRELUDE_BAD[fmt]
+    good = [r for r in rows if r["class"] == "complete"]
+    for n, r in enumerate(good):
+        if n % 4 == 0:
+            pre = [bad[(7 * n) % len(bad)], PRELUDE_BAD[fmt][(n // 4) % len(PRELUDE_BAD[fmt])]]
+            e = ("parse", "parsestr", "reader")[(n // 4) % 3]
+            cases.append(case(prop, "parse", fmt, doc=r["doc"], entry=e, sub=dict(prelude=pre), origin="after refused one-shot parses of other documents"))
+        if n % 6 == 1:
+            e = ("parse", "write", "decbytes")[(n // 6) % 3]
+            cases.append(case(prop, "parse", fmt, doc=r["doc"], entry=e, sub=dict(plainvis=True), origin="consumer implements Visitor only",
+                              **sched_variants(ctx, r["doc"], e, rnd)))
     for n, doc in enumerate(deep_docs(fmt)):
         cases.append(case(prop, "parse", fmt, doc=doc, origin="deep nesting"))
         e = other[n % 4]
@@ -250,6 +286,10 @@ def conformance_cases(ctx, prop, fmt, rows):
             cases.append(case(prop, "parse", fmt, doc=doc, entry=e, origin="adjacent tokens, one cut", **kw))
     for n, doc in enumerate(sweep_docs(fmt, ctx.quick)):
         cases.append(case(prop, "parse", fmt, doc=doc, origin="length sweep"))
+        if n % 5 == 0:
+            cases.append(case(prop, "parse", fmt, doc=doc, sub=dict(plainvis=True), origin="length sweep, consumer implements Visitor only"))
+        if n % 7 == 0:
+            cases.append(case(prop, "parse", fmt, doc=doc, sub=dict(prelude=[PRELUDE_BAD[fmt][n % len(PRELUDE_BAD[fmt])]]), origin="length sweep after a refused one-shot parse"))
         e = other[n % 4]
         kw = sched_variants(ctx, doc, e, rnd)
         if n % 2 == 0:       # every byte its own write / read: whatever a token boundary leaves pending meets the next byte alone
@@ -473,12 +513,29 @@ def c03(ctx):
             for e in ents:
                 cases.append(case("C03", "parse", fmt, doc=doc, entry=e, measure=True, origin="mutation " + how,
                                   **after_error(e), **sched_variants(ctx, doc, e, rnd)))
+        # (c) tokens longer than the parsers' internal buffers whose end arrives in a later write / read than their head
+        longdocs = [d for d in sweep_docs(fmt, True) if 58 <= len(d) <= 320]
+        if fmt != "json":
+            longdocs = longdocs[:: 4]
+        else:
+            longdocs = [d for d in longdocs if d[0] != 0x22 and d[:2] != [0x7b, 0x22] and d[:2] != [0x5b, 0x7b] and d[:2] != [0x5b, 0x22]] + longdocs[:: 6]
+        for n, doc in enumerate(longdocs):
+            L = len(doc)
+            for cuts in ([L - 1], [L - 2], [L // 2, L - 1], [1, L - 3]):
+                cases.append(case("C03", "parse", fmt, doc=doc, entry="write", cuts=cuts, measure=(n % 4 == 0), origin="long token, late end", **after_error("write")))
+            cases.append(case("C03", "parse", fmt, doc=doc, entry="reader", cuts=[L - 1 - n % 3], eofwith=n % 2 == 0, origin="long token, late end"))
+            cases.append(case("C03", "parse", fmt, doc=doc, entry="decreader", buf=(16, 64, 7)[n % 3], plan=[L - 1 - n % 2, 1, 1, 1], eofwith=n % 2 == 1, origin="long token, late end"))
+            for cut in (L - 1, L // 2):     # ... and the same cut off there
+                cases.append(case("C03", "parse", fmt, doc=doc[:cut], entry=("write", "reader", "decreader")[n % 3], cuts=[cut // 2], buf=16, plan=[cut // 2, cut],
+                                  origin="long token, cut off", **after_error(("write", "reader", "decreader")[n % 3])))
     number(cases)
     tf, st = core.run_harness(ctx, cases)
     failed, n = core.tlc_validate(ctx, "TraceCodec", tf)
     return run.decide(
         ctx, "TraceCodec", cases, tf, failed, n, level_note="",
-        rule="(a) TLC enumerates ALL byte strings up to MaxLen over the per-format alphabet of boundary bytes (Gen* mode any; exhaustive "
+        rule="(c) documents of the length sweep (texts, member names and number literals of 58-320 bytes, i.e. beyond the 64-byte literal buffers) "
+             "written / read so that the token's end arrives after its head was buffered, and cut off at those places; "
+             "(a) TLC enumerates ALL byte strings up to MaxLen over the per-format alphabet of boundary bytes (Gen* mode any; exhaustive "
              "within that bound) with their classification by the reference automaton; (b) seeded mutations of valid documents from the "
              "language generators (plus escape-rich JSON texts): every truncation point, byte substitutions, every removed span of 1-6 bytes, "
              "64-bit length fields set to 2^31..2^64-1. Every buffer handed to the code has capacity = length. Each input is "
@@ -1065,9 +1122,15 @@ def c09_codec_cases(ctx):
         for n, r in enumerate(GENS[fmt](ctx, "lang")):
             e = ["parse", "write", "decbytes"][n % 3]
             cases.append(case("C09", "parse", fmt, doc=r["doc"], entry=e, origin="Gen %s" % r["class"], **sched_variants(ctx, r["doc"], e, rnd)))
-        for n, doc in enumerate(sweep_docs(fmt, ctx.quick) + deep_docs(fmt)):
+            if n % 4 == 0:
+                cases.append(case("C09", "parse", fmt, doc=r["doc"], entry=e, sub=dict(plainvis=True), origin="Gen %s, consumer implements Visitor only" % r["class"],
+                                  **sched_variants(ctx, r["doc"], e, rnd)))
+        for n, doc in enumerate(sweep_docs(fmt, ctx.quick) + deep_docs(fmt) + token_pair_docs(fmt)):
             e = ["parse", "write", "decbytes", "reader"][n % 4]
-            cases.append(case("C09", "parse", fmt, doc=doc, entry=e, origin="length sweep / deep nesting", **sched_variants(ctx, doc, e, rnd)))
+            cases.append(case("C09", "parse", fmt, doc=doc, entry=e, origin="length sweep / deep nesting / adjacent tokens", **sched_variants(ctx, doc, e, rnd)))
+            if n % 3 == 0:       # a consumer that implements structform.Visitor only: texts and keys reach it through the adapter of string.go
+                e = ["parse", "write", "decbytes", "reader"][(n // 3) % 4]
+                cases.append(case("C09", "parse", fmt, doc=doc, entry=e, sub=dict(plainvis=True), origin="consumer implements Visitor only", **sched_variants(ctx, doc, e, rnd)))
         # inputs near the language: whatever of them a parser accepts must still be well-formed
         valid = [r["doc"] for r in GENS[fmt](ctx, "lang", quick=True) if r["class"] == "complete" and len(r["doc"]) >= 3]
         rnd.shuffle(valid)
